@@ -51,7 +51,20 @@ func VfC02RoundTrip() {
 	q := vf.Int() // skolem index into the message
 	vf.Assume(q >= 0 && q < msgLen)
 
+	r0, p0 := sA.VfOutCounters()
 	err := f.Seal(sA)
+	if err == nil {
+		// the sequence number comes from the counter of the class the receiver will check it in
+		r1, p1 := sA.VfOutCounters()
+		switch cls {
+		case MessageClassPriorityEncrypted:
+			vf.Assert(p1 == p0+1 && r1 == r0 && f.SequenceNum() == p1, "priority-frame-numbered-from-other-counter")
+		case MessageClassEncrypted:
+			vf.Assert(r1 == r0+1 && p1 == p0 && f.SequenceNum() == r1, "regular-frame-numbered-from-other-counter")
+		default:
+			vf.Assert(r1 == r0 && p1 == p0, "signed-frame-consumed-sequence-number")
+		}
+	}
 	if cls == MessageClassUnknown {
 		vf.Assert(err != nil, "unknown-class-sealed")
 		vf.Reach("unknown-class")
